@@ -343,6 +343,32 @@ theorem undefined_status (canon : String → String) (reg : List (String × Stri
   rw [firstSome_statusKeys, hn]
   cases o.strict <;> cases i.responses.isEmpty <;> simp [hm, hs]
 
+/-- An entry whose reference was never resolved (`Value == nil`) is an error whatever the response looks like. -/
+theorem unresolved_entry_rejected (canon : String → String) (reg : List (String × String)) (o : Opts) (i : Input)
+    (r : Resp) (hm : i.method ≠ "HEAD") (hs : skipStatus i.status = false)
+    (hsel : selected i.responses i.status = some r) (hr : r.resolved = false) :
+    validateResponse canon reg o i = ⟨some .respUnresolved, some i.body⟩ ∧ ¬ Accept canon reg o i := by
+  have he : i.responses.isEmpty = false := by
+    cases h : i.responses.isEmpty with
+    | false => rfl
+    | true =>
+      have hnil : i.responses = [] := List.isEmpty_iff.mp h
+      have : selected i.responses i.status = none := by
+        rw [hnil]; unfold selected statusKeys
+        cases classKey i.status <;> simp [firstSome, lookup]
+      simp [hsel] at this
+  constructor
+  · unfold validateResponse
+    rw [firstSome_statusKeys, hsel]
+    simp [hm, hs, he, hr]
+  · intro h
+    unfold Accept at h
+    rcases h with h | h
+    · rcases h with h | h
+      · exact hm h
+      · have := (skipStatus_iff _).mpr h; simp [hs] at this
+    · rw [hsel] at h; simp [hr] at h
+
 theorem acceptB_iff (canon : String → String) (reg : List (String × String)) (o : Opts) (i : Input) :
     acceptB canon reg o i = true ↔ Accept canon reg o i := by
   unfold acceptB Accept
@@ -353,6 +379,8 @@ theorem acceptB_iff (canon : String → String) (reg : List (String × String)) 
   | none => simp
   | some r =>
     simp only [Bool.and_eq_true, List.all_eq_true, Bool.or_eq_true, decide_eq_true_eq, headerOKB_iff, bodyOKB_iff]
+    rw [and_assoc]
+    apply and_congr Iff.rfl
     apply and_congr
     · constructor
       · intro h x hx hn
@@ -403,7 +431,18 @@ theorem accept_iff_partial (canon : String → String) (reg : List (String × St
             cases h : i.responses.isEmpty with
             | false => rfl
             | true => have := hempty h; simp [hsel] at this
-          rw [validateResponse_selected canon reg o i r hm hs he hsel]
+          cases hr : r.resolved with
+          | false =>
+            constructor
+            · intro h
+              unfold validateResponse at h
+              rw [firstSome_statusKeys, hsel] at h
+              simp [hm, hs, he, hr] at h
+            · intro h; exact absurd h.1 (by simp [hr])
+          | true =>
+          simp only [hr, true_and]
+          have hr' : r.resolved = true := hr
+          rw [validateResponse_selected canon reg o i r hm hs he hsel hr']
           have hex : ∀ h, h ∈ r.headers → h.name ≠ "Content-Type" →
               hdrDecodedNil canon i.hdrs h = false ∧ hdrArrayNoItems canon i.hdrs h = false := by
             intro h hmem hn
@@ -469,12 +508,12 @@ theorem multiError_irrelevant (canon : String → String) (reg : List (String ×
 /-- ExcludeResponseBody removes exactly the body check: the headers decide. -/
 theorem excludeBody_headers_decide (canon : String → String) (reg : List (String × String)) (o : Opts) (i : Input) (r : Resp)
     (hb : o.excludeBody = true) (hm : i.method ≠ "HEAD") (hs : skipStatus i.status = false)
-    (he : i.responses ≠ []) (hsel : selected i.responses i.status = some r) :
+    (he : i.responses ≠ []) (hsel : selected i.responses i.status = some r) (hr : r.resolved = true) :
     (validateResponse canon reg o i).err = firstErr (checkHeader canon o.woOff i.hdrs) (checkedHeaders r) := by
   unfold validateResponse
   have : i.responses.isEmpty = false := by cases h : i.responses <;> simp_all
   rw [firstSome_statusKeys, hsel]
-  simp only [hm, hs, this, if_false, Bool.false_eq_true]
+  simp only [hm, hs, this, hr, if_false, Bool.false_eq_true, Bool.not_true, Bool.false_and]
   cases firstErr (checkHeader canon o.woOff i.hdrs) (checkedHeaders r) <;> simp [checkBody, hb]
 
 /-- The header error reported is the one of a declared header other than Content-Type. -/
@@ -612,7 +651,7 @@ def inp (resps : List (String × Resp)) (hdrs : List (String × String)) (d : De
 
 /-- `X-A: abc` against the header schema `{}`: rejected ("Value is not nullable") although every value satisfies `{}`. -/
 theorem witness_HdrDecodedNil :
-    let i := inp [("200", ⟨[strHdr (.mk {} .nil .none .none)], []⟩)] [("X-A", "abc")] .err
+    let i := inp [("200", ⟨[strHdr (.mk {} .nil .none .none)], [], true⟩)] [("X-A", "abc")] .err
     HdrDecodedNil id i = true ∧ (validateResponse id genReg {} i).err = some (.hdrSchema "X-A") ∧ acceptB id genReg {} i = true := by
   decide
 
@@ -623,7 +662,7 @@ def pwHdrSchema : Sch :=
 write-only is rejected by the model and by the spec, lies in no exclusion class, and is accepted again when the
 write-only checks are switched off. -/
 theorem header_writeOnly_rejected :
-    let i := inp [("200", ⟨[strHdr pwHdrSchema], []⟩)] [("X-A", "pw,x")] .err
+    let i := inp [("200", ⟨[strHdr pwHdrSchema], [], true⟩)] [("X-A", "pw,x")] .err
     Excluded id {} i = false ∧ (validateResponse id genReg {} i).err = some (.hdrSchema "X-A") ∧ acceptB id genReg {} i = false ∧
       (validateResponse id genReg { woOff := true } i).err = none ∧ acceptB id genReg { woOff := true } i = true := by
   decide
@@ -636,13 +675,13 @@ def pwReqHdrSchema : Sch :=
 /-- Regression (F-C08-2, second half): a header object that (rightly) omits its required write-only property is
 accepted by the model and by the spec. -/
 theorem header_required_writeOnly_absent_accepted :
-    let i := inp [("200", ⟨[strHdr pwReqHdrSchema], []⟩)] [("X-A", "n,x")] .err
+    let i := inp [("200", ⟨[strHdr pwReqHdrSchema], [], true⟩)] [("X-A", "n,x")] .err
     Excluded id {} i = false ∧ (validateResponse id genReg {} i).err = none ∧ acceptB id genReg {} i = true := by
   decide
 
 /-- `X-A: 1,2` against the header schema `{type: array}` (no `items`): nil dereference. -/
 theorem witness_HdrArrayNoItems :
-    let i := inp [("200", ⟨[strHdr (arrHdrSchema .none)], []⟩)] [("X-A", "1,2")] .err
+    let i := inp [("200", ⟨[strHdr (arrHdrSchema .none)], [], true⟩)] [("X-A", "1,2")] .err
     HdrArrayNoItems id i = true ∧ (validateResponse id genReg {} i).err = some (.hdrPanic "X-A") ∧
       acceptB id genReg {} i = false := by
   decide
@@ -660,7 +699,7 @@ theorem empty_map_strict_rejected :
 /-- Regression (F-C08-4, fixed): body `{"pw": null}` against a schema whose nullable property `pw` is write-only
 is rejected by the model and by the spec, and lies in no exclusion class. -/
 theorem writeOnly_null_rejected_in_body :
-    let i := inp [("200", ⟨[], [("application/json", ⟨some (pwSchema true)⟩)]⟩)] [("Content-Type", "application/json")]
+    let i := inp [("200", ⟨[], [("application/json", ⟨some (pwSchema true)⟩)], true⟩)] [("Content-Type", "application/json")]
               (.val (.obj (.cons "pw" .null .nil)))
     Excluded id {} i = false ∧ (validateResponse id genReg {} i).err = some .bodySchema ∧ acceptB id genReg {} i = false := by
   decide
@@ -670,10 +709,10 @@ theorem writeOnly_null_rejected_in_body :
 def exResp : Resp :=
   ⟨[{ name := "X-B", required := true, schema := some (.mk { ty := .integer, maxI := some 9 } .nil .none .none) },
     { name := "X-A", required := false, schema := some (.mk { ty := .string } .nil .none .none) }],
-   [("application/json", ⟨some (pwSchema false)⟩)]⟩
+   [("application/json", ⟨some (pwSchema false)⟩)], true⟩
 
 def exIn (status : Int) (body : J) : Input :=
-  { method := "GET", status := status, responses := [("2XX", exResp), ("default", ⟨[], []⟩)],
+  { method := "GET", status := status, responses := [("2XX", exResp), ("default", ⟨[], [], true⟩)],
     hdrs := [("X-B", "5"), ("Content-Type", "application/json; charset=utf-8")], body := "…", readFails := false,
     bodyDec := .val body }
 
